@@ -57,7 +57,7 @@ CLAIMED = {
         note=BASE + 'hash() uninterpreted. Relation / Constraint / FeatureModel laws are bounded only.'),
     'C17': dict(category='other', design_ref='DESIGN.md section 4 C17, section 9',
         text='Proved for all well-formed models: totality (no empty min/max/mean/median, no zero divisor, no missing key) and the size / ratio clauses of the '
-             '25 metric methods that use list-valued caches; the sizes of the cross-tree / simple / requires / excludes constraint metrics against the documented forms; the listing itself against its definition over the tree for compound / top / alternative-group / or-group / '
+             '25 metric methods that use list-valued caches; the sizes of the cross-tree / simple / requires / excludes constraint metrics against the documented forms and of the complex / pseudo-complex / strict-complex metrics against the C18 predicates; the listing itself against its definition over the tree for compound / top / alternative-group / or-group / '
              'mutex-group / cardinality-group / feature-group features (names in model order); get_ratio against its definition, the ancestors helper (invariant), frames of all 40 metric methods '
              'and of execute, report reset before delegation (history independence). Bounded: all 40 metrics against definitions computed on the model '
              'description, the identities, the filter, reused objects.',
@@ -112,12 +112,12 @@ CLAIMED = {
         note=BASE + 'xml.etree Element modelled as a value (tag, text or None, ordered children); attributes are uninterpreted functions of (element, key); the feature-tree '
                     'walks (mandatory flags, cardinalities: loops that allocate objects) are bounded only. Termination of _parse_rule not proved (finite tree assumed).'),
     'C10': dict(category='other', design_ref='DESIGN.md section 4 C10, section 9',
-        text='Deductive part: purity of both writers; the CNF chain the SPLOT export relies on (simplify_formula / propagate_negation / to_cnf: equivalence and '
+        text='Deductive part: purity of both writers; in the propositional export each relation gets the formula of its own class (get_relation_formula against the C03 classes, through the contracts of the six formula functions), the mandatory / optional / or formulas are the documented ones; the SPLOT identifier quoting (plain exactly when the name is letters, digits, _); the CNF chain the SPLOT export relies on (simplify_formula / propagate_negation / to_cnf: equivalence and '
              'normal forms, proved in C18 on the dependency source). Bounded: both exports interpreted by independent interpreters of SXFM and of the '
              'propositional syntax over all 2^n selections against brute-force valid configurations (all trees <= 4 features, special families, random).',
-        note=BASE + 'Known findings C18_dep_simplify (XOR / EQUIVALENCE clauses), C10_pl_names. Group-semantics lemma bounded.'),
+        note=BASE + 'Known findings C18_dep_simplify (XOR / EQUIVALENCE clauses), C10_pl_names. The alternative / mutex / cardinality formulas are outside the verifier (join over filtered comprehensions, itertools): their meaning is decided natively by an independent evaluator over all selections (bounded).'),
     'C11': dict(category='other', design_ref='DESIGN.md section 4 C11, section 9',
-        text='Deductive part: parse_group_type writes, for a feature whose children form one group, the keyword whose Clafer meaning is the group cardinality (xor = exactly one, or = at least one, mux = at most one, a..b) and none for solitary children; writer purity. Bounded: the export parsed by an independent interpreter of the emitted Clafer subset (xor / or / mux / a..b, ?, '
+        text='Deductive part: parse_group_type writes, for a feature whose children form one group, the keyword whose Clafer meaning is the group cardinality (xor = exactly one, or = at least one, mux = at most one, a..b) and none for solitary children; the identifier written for a name is a function of the name (plain exactly when it is letters, digits, _; quoted otherwise); the declared attribute type follows the Python type of the default value (bool before int); writer purity. Bounded: the export parsed by an independent interpreter of the emitted Clafer subset (xor / or / mux / a..b, ?, '
              'top-level constraints) over all 2^n selections; identifier consistency between declaration and use of features and attributes.',
         note=BASE + 'Known finding C11_opword_names. The text of the export as a whole (indentation, constraints, attributes) is bounded only.'),
     'C12': dict(category='other', design_ref='DESIGN.md section 4 C12, section 9',
